@@ -145,3 +145,14 @@ pub fn set_prefilter(n: &mut NFA, pre: Option<Prefilter>) {
 pub fn take_prefilter(n: &NFA) -> Option<Prefilter> {
     n.prefilter.clone()
 }
+
+/// (fail target, depth of state i, depth of its fail target, whether i is a
+/// start state or one of the DEAD/FAIL sentinels)
+pub fn fail_and_depth(n: &NFA, i: usize) -> (u32, usize, usize, bool) {
+    let s = &n.states[i];
+    let f = s.fail;
+    let sentinel = i <= 1
+        || i == n.special.start_unanchored_id.as_usize()
+        || i == n.special.start_anchored_id.as_usize();
+    (f.as_u32(), s.depth.as_usize(), n.states[f].depth.as_usize(), sentinel)
+}
